@@ -6,6 +6,8 @@ from typing import Any
 
 import z3
 
+from .model import ty_name
+
 from .state import State, fresh_id
 from .values import (
     BagObj,
@@ -274,6 +276,15 @@ class Builtins(Methods):
             return [(st, Builtin("method:" + attr, v))]
         if attr == "location":
             return [(st, Opaque("location"))]
+        if getattr(ex, "resolve_ctors", False) and x.get_id() not in st.ctor:
+            # opt-in: decide the constructor of x from the path condition (well-formedness facts) instead of
+            # carrying an If-chain over every constructor that has this field
+            cands = m.field_index.get(attr, [])
+            if len(cands) > 1:
+                for cname, _ty in cands:
+                    if ex.valid(st, m.is_ctor(cname, x)):
+                        st.ctor[x.get_id()] = (x, cname)
+                        break
         groups = self.ast_field(x, attr, st=st)
         if not groups:
             return [(st, Raised("AttributeError", attr))]
@@ -572,6 +583,8 @@ class Builtins(Methods):
                 et = ex.ty_of(st, p)[1]
             elif p:
                 et = et or ex.ty_of(st, p[0])
+        if getattr(ex, "functional_lists", False) and et is not None:
+            return st.alloc(ListObj(sv=SV(self.concat_term(st, parts, et), ("list", et))))
         res = ex.fresh(st, "cat", ("list", et))
         ln, at = m.lst_funcs(et)
         off = z3.IntVal(0)
@@ -591,6 +604,68 @@ class Builtins(Methods):
                 off = off + ln(t)
         st.assume(ln(res.term) == off)
         return st.alloc(ListObj(sv=res))
+
+    def list_algebra(self, et):
+        """nil / cons / cat2 over lists of et as definitional functions (global axioms, E-matching patterns)"""
+        ex, m = self.ex, self.m
+        key = ty_name(et)
+        ls, es = m.sort(("list", et)), m.sort(et)
+        first = f"cons_{key}" not in ex.ufuncs
+        nil = z3.Const(f"nil_{key}", ls)
+        cons = ex.ufunc(f"cons_{key}", [es, ls], ls)
+        cat2 = ex.ufunc(f"cat2_{key}", [ls, ls], ls)
+        if first:
+            ln, at = m.lst_funcs(et)
+            x_, a_, b_, j_ = z3.Const("x!la", es), z3.Const("a!la", ls), z3.Const("b!la", ls), z3.Int("j!la")
+            ax = m.global_axioms
+            ax.append(ln(nil) == 0)
+            ax.append(z3.ForAll([x_, a_], z3.And(ln(cons(x_, a_)) == 1 + ln(a_), at(cons(x_, a_), 0) == x_), patterns=[cons(x_, a_)]))
+            ax.append(z3.ForAll([x_, a_, j_], z3.Implies(z3.And(1 <= j_, j_ <= ln(a_)), at(cons(x_, a_), j_) == at(a_, j_ - 1)), patterns=[at(cons(x_, a_), j_)]))
+            ax.append(z3.ForAll([a_, b_], ln(cat2(a_, b_)) == ln(a_) + ln(b_), patterns=[cat2(a_, b_)]))
+            ax.append(
+                z3.ForAll(
+                    [a_, b_, j_],
+                    z3.And(
+                        z3.Implies(z3.And(0 <= j_, j_ < ln(a_)), at(cat2(a_, b_), j_) == at(a_, j_)),
+                        z3.Implies(z3.And(ln(a_) <= j_, j_ < ln(a_) + ln(b_)), at(cat2(a_, b_), j_) == at(b_, j_ - ln(a_))),
+                    ),
+                    patterns=[at(cat2(a_, b_), j_)],
+                )
+            )
+            # the same facts, triggered by a known element of a part (so that `exists position` goals find their witness)
+            ax.append(z3.ForAll([a_, b_, j_], z3.Implies(z3.And(0 <= j_, j_ < ln(a_)), at(cat2(a_, b_), j_) == at(a_, j_)), patterns=[z3.MultiPattern(cat2(a_, b_), at(a_, j_))]))
+            ax.append(z3.ForAll([a_, b_, j_], z3.Implies(z3.And(0 <= j_, j_ < ln(b_)), at(cat2(a_, b_), ln(a_) + j_) == at(b_, j_)), patterns=[z3.MultiPattern(cat2(a_, b_), at(b_, j_))]))
+            ax.append(z3.ForAll([x_, a_, j_], z3.Implies(z3.And(0 <= j_, j_ < ln(a_)), at(cons(x_, a_), j_ + 1) == at(a_, j_)), patterns=[z3.MultiPattern(cons(x_, a_), at(a_, j_))]))
+        return nil, cons, cat2
+
+    def without_term(self, st, lst, y, et):
+        """[v for v in lst if v != y] as a definitional function of (lst, y)"""
+        ex, m = self.ex, self.m
+        key = f"without_{ty_name(et)}"
+        first = key not in ex.ufuncs
+        ls, es = m.sort(("list", et)), m.sort(et)
+        f = ex.ufunc(key, [ls, es], ls)
+        if first:
+            ln, at = m.lst_funcs(et)
+            l_, y_, j_, i_ = z3.Const("l!wo", ls), z3.Const("y!wo", es), z3.Int("j!wo"), z3.Int("i!wo")
+            ax = m.global_axioms
+            ax.append(z3.ForAll([l_, y_], ln(f(l_, y_)) <= ln(l_), patterns=[f(l_, y_)]))
+            ax.append(z3.ForAll([l_, y_, j_], z3.Implies(z3.And(0 <= j_, j_ < ln(f(l_, y_))), z3.And(at(f(l_, y_), j_) != y_, z3.Exists([i_], z3.And(0 <= i_, i_ < ln(l_), at(l_, i_) == at(f(l_, y_), j_))))), patterns=[at(f(l_, y_), j_)]))
+            ax.append(z3.ForAll([l_, y_, i_], z3.Implies(z3.And(0 <= i_, i_ < ln(l_), at(l_, i_) != y_), z3.Exists([j_], z3.And(0 <= j_, j_ < ln(f(l_, y_)), at(f(l_, y_), j_) == at(l_, i_)))), patterns=[z3.MultiPattern(f(l_, y_), at(l_, i_))]))
+        return f(ex.to_term(st, lst, ("list", et)), ex.to_term(st, y, et))
+
+    def concat_term(self, st, parts, et):
+        ex = self.ex
+        nil, cons, cat2 = self.list_algebra(et)
+        t = None
+        for k, p in reversed(list(parts)):
+            if k == "sym":
+                pt = ex.to_term(st, p, ("list", et))
+                t = pt if t is None else cat2(pt, t)
+            else:
+                for it in reversed(list(p)):
+                    t = cons(ex.to_term(st, it, et), nil if t is None else t)
+        return nil if t is None else t
 
     def unpack_symbolic(self, st, v, n):
         m = self.m
@@ -762,6 +837,43 @@ class Builtins(Methods):
             if isinstance(o, Tup):
                 return [(st, Tup(tuple(res)))]
             return [(st, st.alloc(ListObj(items=tuple(res))))]
+        def _nonneg(x):
+            return (isinstance(x, int) and x >= 0) or (isinstance(x, SV) and x.ty == "int" and self.ex.valid(st, x.term >= 0))
+
+        if items is None and lo in (None, 0) and hi is not None and step is None and _nonneg(hi):
+            # l[:hi] of a symbolic sequence, hi >= 0: a definitional function of (l, hi)
+            ex, m = self.ex, self.m
+            t = ex.ty_of(st, o)
+            if isinstance(t, tuple) and t[0] == "list" and t[1] is not None:
+                et = t[1]
+                key = f"slice_to_{ty_name(et)}"
+                first = key not in ex.ufuncs
+                ls = m.sort(("list", et))
+                f = ex.ufunc(key, [ls, z3.IntSort()], ls)
+                if first:
+                    ln, at = m.lst_funcs(et)
+                    l_, a_, j_ = z3.Const("l!slt", ls), z3.Int("a!slt"), z3.Int("j!slt")
+                    m.global_axioms.append(z3.ForAll([l_, a_], z3.Implies(a_ >= 0, ln(f(l_, a_)) == z3.If(a_ < ln(l_), a_, ln(l_))), patterns=[f(l_, a_)]))
+                    m.global_axioms.append(z3.ForAll([l_, a_, j_], z3.Implies(z3.And(0 <= j_, j_ < a_, j_ < ln(l_)), at(f(l_, a_), j_) == at(l_, j_)), patterns=[at(f(l_, a_), j_)]))
+                    m.global_axioms.append(z3.ForAll([l_, a_, j_], z3.Implies(z3.And(0 <= j_, j_ < a_, j_ < ln(l_)), at(f(l_, a_), j_) == at(l_, j_)), patterns=[z3.MultiPattern(f(l_, a_), at(l_, j_))]))
+                return [(st, st.alloc(ListObj(sv=SV(f(ex.to_term(st, o, ("list", et)), ex.to_term(st, hi, "int")), ("list", et)))))]
+        if items is None and lo is not None and _nonneg(lo) and hi is None and step is None:
+            # l[lo:] of a symbolic sequence, lo >= 0: a definitional function of (l, lo) (global axioms, no fresh constant)
+            ex, m = self.ex, self.m
+            t = ex.ty_of(st, o)
+            if isinstance(t, tuple) and t[0] == "list" and t[1] is not None:
+                et = t[1]
+                key = f"slice_from_{ty_name(et)}"
+                first = key not in ex.ufuncs
+                ls = m.sort(("list", et))
+                f = ex.ufunc(key, [ls, z3.IntSort()], ls)
+                if first:
+                    ln, at = m.lst_funcs(et)
+                    l_, a_, j_ = z3.Const("l!slc", ls), z3.Int("a!slc"), z3.Int("j!slc")
+                    m.global_axioms.append(z3.ForAll([l_, a_], ln(f(l_, a_)) == z3.If(ln(l_) - a_ > 0, ln(l_) - a_, 0), patterns=[f(l_, a_)]))
+                    m.global_axioms.append(z3.ForAll([l_, a_, j_], z3.Implies(z3.And(0 <= j_, j_ < ln(l_) - a_, a_ >= 0), at(f(l_, a_), j_) == at(l_, j_ + a_)), patterns=[at(f(l_, a_), j_)]))
+                    m.global_axioms.append(z3.ForAll([l_, a_, j_], z3.Implies(z3.And(0 <= a_, a_ <= j_, j_ < ln(l_)), at(f(l_, a_), j_ - a_) == at(l_, j_)), patterns=[z3.MultiPattern(f(l_, a_), at(l_, j_))]))
+                return [(st, st.alloc(ListObj(sv=SV(f(ex.to_term(st, o, ("list", et)), ex.to_term(st, lo, "int")), ("list", et)))))]
         raise Unsupported("slice of symbolic sequence")
 
     # ------------------------------------------------------------------------------------------
@@ -920,6 +1032,20 @@ class Builtins(Methods):
         if isinstance(op, (pyast.BitOr, pyast.BitAnd, pyast.Sub)) and self._is_set(st, a) and self._is_set(st, b):
             name = {pyast.BitOr: "union", pyast.BitAnd: "intersection", pyast.Sub: "difference"}[type(op)]
             return self.call_method(st, None, a, name, [b], {})
+        if isinstance(op, pyast.Mult) and isinstance(b, SV) and b.ty == "int" and self.concrete_items(st, a) is not None and len(self.concrete_items(st, a)) == 1:
+            # [x] * n with symbolic n: a definitional function of (x, n)
+            x = self.concrete_items(st, a)[0]
+            et = ex.ty_of(st, x)
+            key = f"repeat_{ty_name(et)}"
+            first = key not in ex.ufuncs
+            ls = m.sort(("list", et))
+            f = ex.ufunc(key, [m.sort(et), z3.IntSort()], ls)
+            if first:
+                ln, at = m.lst_funcs(et)
+                x_, n_, j_ = z3.Const("x!rep", m.sort(et)), z3.Int("n!rep"), z3.Int("j!rep")
+                m.global_axioms.append(z3.ForAll([x_, n_], ln(f(x_, n_)) == z3.If(n_ > 0, n_, 0), patterns=[f(x_, n_)]))
+                m.global_axioms.append(z3.ForAll([x_, n_, j_], z3.Implies(z3.And(0 <= j_, j_ < n_), at(f(x_, n_), j_) == x_), patterns=[at(f(x_, n_), j_)]))
+            return [(st, st.alloc(ListObj(sv=SV(f(ex.to_term(st, x, et), b.term), ("list", et)))))]
         if isinstance(op, pyast.Mult) and isinstance(b, int) and self.concrete_items(st, a) is not None:
             items = self.concrete_items(st, a) * b
             return [(st, st.alloc(ListObj(items=tuple(items))))]
